@@ -54,6 +54,20 @@ def gen_history(rng, dynamic=True, big=False):
     return dict(line=line, lmin=lmin, lmax=lmax, swap=swap, events=ev, size=size, kind=kind)
 
 
+def huge_case(rng):
+    """a single cell with more than 32768 nodes (large ids in the edge keys), a few single operations"""
+    n, f = tissue.icosphere(6)
+    M = tissue.rnd_rot(rng)
+    n = tissue.transform(n, M, (0, 0, 0), (1e-5, 1e-5, 1e-5))
+    me = tissue.mean_edge(n, f)
+    ev = ["OP 1 %d" % rng.randrange(10 ** 6), "OP 1 %d" % rng.randrange(10 ** 6), "OP 0 %d" % rng.randrange(10 ** 6), "OP 1 %d" % rng.randrange(10 ** 6)]
+    types = [0] * len(f)
+    ct = tissue.cell_type(gid=0)
+    line = tissue.fmt_tissue(tissue.params(), [ct], [(0, n, f)]) + " R %s %s %d %d %s %d %s" % (
+        hx(me * 0.5), hx(me * 1.5), 0, len(types), " ".join(map(str, types)), len(ev), " ".join(ev))
+    return dict(line=line, lmin=me * 0.5, lmax=me * 1.5, swap=0, events=ev, size=1e-5, kind="ico6")
+
+
 def conforming_case(rng):
     """a mesh that already satisfies the band and the quality rule: a pass must leave it unchanged"""
     size = 10 ** rng.uniform(-6, 0)
